@@ -194,6 +194,8 @@ func (r *run) behaviour(fn, x int) Beh {
 	return Beh{K: "ok"}
 }
 
+var vErrType = reflect.TypeOf(pool.VErr{})
+
 // body is the implementation shared by all scripted functions.
 func (r *run) body(fs *fnState, args []reflect.Value) []reflect.Value {
 	f, x := fs.def.ID, fs.count
@@ -225,13 +227,16 @@ func (r *run) body(fs *fnState, args []reflect.Value) []reflect.Value {
 	}
 
 	p := newProducer(f, x, beh.length())
+	valErr := false
 	outs := make([]reflect.Value, len(fs.out))
 	for i, t := range fs.out {
 		v := reflect.New(t).Elem()
-		if i == failing && !reflect.TypeOf((*UserErr)(nil)).AssignableTo(t) {
-			// a value-typed error result (pool.VErr): its zero value already is a non-nil error
+		if t == vErrType {
+			// a value-typed error result: never a nil interface, so dig takes it for an error on every call; it
+			// carries the execution it comes from
 			p.slot++
-			v.Set(reflect.Zero(t))
+			valErr = true
+			v.Set(reflect.ValueOf(pool.VErr{Code: f<<20 | x}))
 		} else if i == failing {
 			p.slot++
 			if beh.TNil {
@@ -253,7 +258,7 @@ func (r *run) body(fs *fnState, args []reflect.Value) []reflect.Value {
 	case beh.K == "panic":
 		r.event(fmt.Sprintf(`{"e":"exit","fn":%d,"x":%d,"r":"panic"}`, f, x))
 		panic(panicValue(f, x))
-	case failing >= 0:
+	case failing >= 0 || valErr:
 		r.event(fmt.Sprintf(`{"e":"exit","fn":%d,"x":%d,"r":"err"}`, f, x))
 	default:
 		r.event(fmt.Sprintf(`{"e":"exit","fn":%d,"x":%d,"r":"ok"}`, f, x))
